@@ -10,6 +10,7 @@
 package main
 
 import (
+	"bytes"
 	"encoding/binary"
 	"encoding/hex"
 	"encoding/json"
@@ -198,6 +199,22 @@ func (h *hist) fail(sig, what string) {
 	}
 }
 
+// aid: the account id the model sees.  The refund loops walk a proposal's deposit records in address
+// order and the module account's own record (finding C15-2, second shape) is a transfer to itself, so
+// the model needs to know on which side of the module account an address sorts: the parity of the id
+// says it (even: before, odd: after).  The module account itself is -1.
+func (h *hist) aid(id int64) int64 {
+	if id < 0 {
+		return id
+	}
+	if bytes.Compare(h.keys[id].Acc(), h.govAcc) > 0 {
+		return 2*id + 1
+	}
+	return 2 * id
+}
+
+const feeCollectorID = 2000 // an account nobody observes: where a crisis constant fee goes
+
 func (h *hist) supplyAndPool() (*big.Int, *big.Int) {
 	ctx := h.c.Ctx
 	sup := h.c.App.BankKeeper.GetSupply(ctx, denomFX).Amount.BigInt()
@@ -278,6 +295,9 @@ func (h *hist) observe(res int) *obsT {
 		if !ok {
 			id = -7
 		}
+		if k.K2().Equals(h.govAcc) {
+			id = -1 // the module account's own record
+		}
 		p.Deps[id] = sdk.NewCoins(d.Amount...).AmountOf(denomFX).BigInt()
 		return false, nil
 	}))
@@ -321,7 +341,7 @@ func (h *hist) observe(res int) *obsT {
 
 func zb(b *big.Int) string { return lib.ZBig(b) }
 
-func (o *obsT) coq(ids []int64) string {
+func (o *obsT) coq(ids []int64, aid func(int64) int64) string {
 	var ps []string
 	for _, p := range o.Props {
 		var deps []string
@@ -331,7 +351,7 @@ func (o *obsT) coq(ids []int64) string {
 		}
 		sort.Slice(ks, func(i, j int) bool { return ks[i] < ks[j] })
 		for _, k := range ks {
-			deps = append(deps, lib.Pair(lib.Z(k), zb(p.Deps[k])))
+			deps = append(deps, lib.Pair(lib.Z(aid(k)), zb(p.Deps[k])))
 		}
 		vend := p.VEnd
 		if p.Status == 1 {
@@ -346,7 +366,7 @@ func (o *obsT) coq(ids []int64) string {
 	}
 	var bs []string
 	for _, id := range ids {
-		bs = append(bs, lib.Pair(lib.Z(id), zb(o.Bals[id])))
+		bs = append(bs, lib.Pair(lib.Z(aid(id)), zb(o.Bals[id])))
 	}
 	u := func(l []uint64) string {
 		s := make([]string, len(l))
@@ -547,7 +567,7 @@ func newHist(seed int64, idx int, class string) *hist {
 	o := h.observe(0)
 	var bs []string
 	for _, id := range h.ids {
-		bs = append(bs, lib.Pair(lib.Z(id), zb(o.Bals[id])))
+		bs = append(bs, lib.Pair(lib.Z(h.aid(id)), zb(o.Bals[id])))
 	}
 	h.initBals = lib.List(bs)
 	h.initCust = h.customCoq()
@@ -621,7 +641,7 @@ func (h *hist) now() int64 { return rel(h.c.Ctx.BlockTime()) }
 
 func (h *hist) record(opCoq string, res int) *obsT {
 	o := h.observe(res)
-	h.steps = append(h.steps, "("+opCoq+", "+o.coq(h.ids)+")")
+	h.steps = append(h.steps, "("+opCoq+", "+o.coq(h.ids, h.aid)+")")
 	return o
 }
 
@@ -679,7 +699,7 @@ func (h *hist) buildMsgs(kind string, info *propInfo) ([]sdk.Msg, []mMsg) {
 	send := func(to int64, amt *big.Int) {
 		msgs = append(msgs, &banktypes.MsgSend{FromAddress: h.gov, ToAddress: h.keys[to].Acc().String(),
 			Amount: sdk.NewCoins(sdk.NewCoin(denomFX, sdkmath.NewIntFromBigInt(amt)))})
-		mm = append(mm, mMsg{Type: tySend, Act: fmt.Sprintf("AGovSend %d %s", to, zb(amt))})
+		mm = append(mm, mMsg{Type: tySend, Act: fmt.Sprintf("AGovSend %d %s", h.aid(to), zb(amt))})
 	}
 	xparams := func() {
 		p := h.c.App.EthKeeper.GetParams(h.c.Ctx)
@@ -886,13 +906,12 @@ func (h *hist) opSubmitSpend(proposer int64, coins sdk.Coins, amt *big.Int) {
 // The model has no action for it (what happens when the target closes depends on the address order
 // of the refund loop); such histories are evaluated by the monitor only.
 func (h *hist) opSubmitGovDeposit(proposer int64, target uint64, amount, amt *big.Int) {
-	h.noCorr = true
 	h.opSubmitWith("govdeposit", proposer, amt, false, false, func(info *propInfo) ([]sdk.Msg, []mMsg) {
 		info.GovSend = new(big.Int) // a spend of the module account's holdings, nothing leaves it
 		info.sendTo = -7
 		m := &govv1.MsgDeposit{ProposalId: target, Depositor: h.gov, Amount: sdk.NewCoins(sdk.NewCoin(denomFX, sdkmath.NewIntFromBigInt(amount)))}
 		info.Types, info.URLs = []int{9}, []string{sdk.MsgTypeURL(m)}
-		return []sdk.Msg{m}, []mMsg{{Type: 9, Act: "AFail"}}
+		return []sdk.Msg{m}, []mMsg{{Type: 9, Act: fmt.Sprintf("AGovDeposit %d %s", target, zb(amount))}}
 	})
 }
 
@@ -900,7 +919,6 @@ func (h *hist) opSubmitGovDeposit(proposer int64, target uint64, amount, amt *bi
 // crisis constant fee to the sender — i.e. out of what the account holds for open proposals — and
 // then runs the invariant.  Monitor only (no model action).
 func (h *hist) opSubmitCrisis(proposer int64, module, route string, amt *big.Int) {
-	h.noCorr = true
 	h.opSubmitWith("crisis", proposer, amt, false, false, func(info *propInfo) ([]sdk.Msg, []mMsg) {
 		fee, err := h.c.App.CrisisKeeper.ConstantFee.Get(h.c.Ctx)
 		lib.Must(err)
@@ -908,7 +926,16 @@ func (h *hist) opSubmitCrisis(proposer int64, module, route string, amt *big.Int
 		info.sendTo = -7
 		m := &crisistypes.MsgVerifyInvariant{Sender: h.gov, InvariantModuleName: module, InvariantRoute: route}
 		info.Types, info.URLs = []int{10}, []string{sdk.MsgTypeURL(m)}
-		return []sdk.Msg{m}, []mMsg{{Type: 10, Act: "AFail"}}
+		// the gov module-account invariant is broken by the fee charge itself: the handler panics and
+		// the branch is dropped (a failing message); any invariant that holds: the fee is a send from
+		// the module account to the fee collector
+		act := fmt.Sprintf("AGovSend %d %s", feeCollectorID, zb(fee.Amount.BigInt()))
+		if module == "gov" && route == "module-account" {
+			act = "AFail"
+			info.GovSend = nil
+			info.HasFail = true
+		}
+		return []sdk.Msg{m}, []mMsg{{Type: 10, Act: act}}
 	})
 }
 
@@ -919,7 +946,7 @@ func (h *hist) opSubmitSend(proposer, to int64, amount, amt *big.Int) {
 		info.Types, info.URLs = []int{tySend}, []string{typeURL[tySend]}
 		return []sdk.Msg{&banktypes.MsgSend{FromAddress: h.gov, ToAddress: h.keys[to].Acc().String(),
 				Amount: sdk.NewCoins(sdk.NewCoin(denomFX, sdkmath.NewIntFromBigInt(amount)))}},
-			[]mMsg{{Type: tySend, Act: fmt.Sprintf("AGovSend %d %s", to, zb(amount))}}
+			[]mMsg{{Type: tySend, Act: fmt.Sprintf("AGovSend %d %s", h.aid(to), zb(amount))}}
 	})
 }
 
@@ -961,7 +988,7 @@ func (h *hist) opSubmitWith(kind string, proposer int64, amt *big.Int, expedited
 	for i, m := range mm {
 		ms[i] = msgCoq(m)
 	}
-	opc := fmt.Sprintf("GOp (OSubmit %d %d %s %s %s %s %s)", h.now(), proposer, lib.List(ms), zb(amt), lib.Bool(expedited), lib.Bool(valid), lib.Bool(badDenom))
+	opc := fmt.Sprintf("GOp (OSubmit %d %d %s %s %s %s %s)", h.now(), h.aid(proposer), lib.List(ms), zb(amt), lib.Bool(expedited), lib.Bool(valid), lib.Bool(badDenom))
 	h.logf("submit kind=%s types=%v by=%d deposit=%s expedited=%v badDenom=%v -> id=%d err=%v", kind, info.URLs, proposer, amt, expedited, badDenom, id, err)
 	h.stats["submit:"+kind]++
 	if err == nil {
@@ -996,7 +1023,7 @@ func (h *hist) opDeposit(pid uint64, who int64, amt *big.Int, badDenom bool) {
 		h.stats["legacy-deposit"]++
 	}
 	code := errCode("deposit", err)
-	opc := fmt.Sprintf("GOp (ODeposit %d %d %d %s %s)", h.now(), pid, who, zb(amt), lib.Bool(badDenom))
+	opc := fmt.Sprintf("GOp (ODeposit %d %d %d %s %s)", h.now(), pid, h.aid(who), zb(amt), lib.Bool(badDenom))
 	h.logf("deposit id=%d by=%d amount=%s badDenom=%v -> err=%v", pid, who, amt, badDenom, err)
 	h.stats["deposit"]++
 	if err == nil {
@@ -1055,7 +1082,7 @@ func (h *hist) opVote(pid uint64, who int64, opts [][2]string, weighted bool) {
 	for i, ow := range opts {
 		ps[i] = lib.Pair(ow[0], ow[1])
 	}
-	opc := fmt.Sprintf("GOp (OVote %d %d %s %s)", pid, who, lib.List(ps), lib.Bool(weighted))
+	opc := fmt.Sprintf("GOp (OVote %d %d %s %s)", pid, h.aid(who), lib.List(ps), lib.Bool(weighted))
 	h.logf("vote id=%d by=%d opts=%v weighted=%v -> err=%v", pid, who, opts, weighted, err)
 	h.stats["vote"]++
 	o := h.record(opc, code)
@@ -1068,7 +1095,7 @@ func (h *hist) opCancel(pid uint64, who int64) {
 		return err
 	})
 	code := errCode("cancel", err)
-	opc := fmt.Sprintf("GOp (OCancel %d %d %d)", h.now(), pid, who)
+	opc := fmt.Sprintf("GOp (OCancel %d %d %d)", h.now(), pid, h.aid(who))
 	h.logf("cancel id=%d by=%d -> err=%v", pid, who, err)
 	h.stats["cancel"]++
 	o := h.record(opc, code)
@@ -1211,13 +1238,13 @@ func (h *hist) genGovParams() {
 func (h *hist) opMint(who int64, amt *big.Int) {
 	h.c.Mint(h.keys[who].Acc(), sdk.NewCoin(denomFX, sdkmath.NewIntFromBigInt(amt)))
 	h.minted.Add(h.minted, amt)
-	opc := fmt.Sprintf("GOp (OBank %d %s)", who, zb(amt))
+	opc := fmt.Sprintf("GOp (OBank %d %s)", h.aid(who), zb(amt))
 	h.logf("bank credit acct=%d amount=%s", who, amt)
 	o := h.record(opc, 0)
 	h.monitor(o, "bank", nil)
 }
 
-func (h *hist) stakingCoq() string {
+func (h *hist) stakingCoq(blockTime int64) string {
 	ctx := h.c.Ctx
 	sk := h.c.App.StakingKeeper
 	var vals, dels []string
@@ -1230,7 +1257,7 @@ func (h *hist) stakingCoq() string {
 			id = -5
 		}
 		valID[v.GetOperator()] = id
-		vals = append(vals, fmt.Sprintf("(%d, %s, %s)", id, zb(v.GetBondedTokens().BigInt()), zb(v.GetDelegatorShares().BigInt())))
+		vals = append(vals, fmt.Sprintf("(%d, %s, %s)", h.aid(id), zb(v.GetBondedTokens().BigInt()), zb(v.GetDelegatorShares().BigInt())))
 		return false
 	}))
 	for _, id := range h.ids {
@@ -1241,16 +1268,22 @@ func (h *hist) stakingCoq() string {
 			if !ok {
 				vid = -6
 			}
-			dels = append(dels, fmt.Sprintf("(%d, %d, %s)", id, vid, zb(d.Shares.BigInt())))
+			dels = append(dels, fmt.Sprintf("(%d, %d, %s)", h.aid(id), h.aid(vid), zb(d.Shares.BigInt())))
 		}
 	}
 	tb, err := sk.TotalBondedTokens(ctx)
 	lib.Must(err)
-	return fmt.Sprintf("mk_stk %s %s %s", lib.List(vals), lib.List(dels), zb(tb.BigInt()))
+	return fmt.Sprintf("mk_stk %s %s %s %d", lib.List(vals), lib.List(dels), zb(tb.BigInt()), blockTime)
 }
 
 func (h *hist) opEndBlock(dt time.Duration) {
-	stk := h.stakingCoq()
+	// environment control (like the switched-off inflation): whatever reached the fee collector (a crisis
+	// constant fee charged to the module account) is swept away before the next block's distribution
+	// begin blocker would split it between validators and the community pool
+	if fc := h.c.App.BankKeeper.GetAllBalances(h.c.Ctx, authtypes.NewModuleAddress(authtypes.FeeCollectorName)); !fc.IsZero() {
+		lib.Must(h.c.App.BankKeeper.SendCoinsFromModuleToAccount(h.c.Ctx, authtypes.FeeCollectorName, lib.EthKey(h.c.Seed, "c15sink", 0).Acc(), fc))
+	}
+	stk := h.stakingCoq(rel(h.c.Time.Add(dt)))
 	before := map[string][]lib.KV{}
 	for _, st := range []string{"erc20", "eth"} {
 		before[st] = h.c.DumpPrefix(h.c.Ctx, st, nil)
@@ -1267,7 +1300,7 @@ func (h *hist) opEndBlock(dt time.Duration) {
 	h.stats["endblock"]++
 	if err != nil {
 		h.halted = true
-		h.steps = append(h.steps, "("+opc+", "+h.haltObs().coq(h.ids)+")")
+		h.steps = append(h.steps, "("+opc+", "+h.haltObs().coq(h.ids, h.aid)+")")
 		sig := "C15:endblock-error"
 		spend := h.govSendExecuted
 		for _, info := range h.props {
@@ -1353,7 +1386,11 @@ func (h *hist) monitor(o *obsT, op string, opErr error) {
 		sum.Add(sum, ps)
 	}
 	if o.Stray > 0 {
-		h.fail("C15:stray-deposit-records", fmt.Sprintf("%d deposit records belong to proposals that are not open", o.Stray))
+		straySig := "C15:stray-deposit-records"
+		if h.govSendExecuted {
+			straySig = "C15:gov-account-spend:stray-record" // a pledge into the very proposal being executed
+		}
+		h.fail(straySig, fmt.Sprintf("%d deposit records belong to proposals that are not open", o.Stray))
 	}
 	if o.Gov.Cmp(sum) != 0 || len(o.GovOther) > 0 {
 		sig := "C15:conservation"
@@ -1907,6 +1944,25 @@ func (h *hist) minFor(expedited bool) *big.Int {
 
 func (h *hist) genSubmit() {
 	r := h.r
+	if h.class == "govsend" && r.Chance(12) {
+		// the other shapes of "the module account spends what it holds for others"
+		proposer := int64(10 + r.Intn(6))
+		min := h.minFor(false)
+		if r.Chance(60) {
+			// a pledge into an existing open proposal, into the next one to be submitted, or into itself
+			target := uint64(len(h.prev.Props) + 1 + r.Intn(2))
+			if open := h.openIDs(0); len(open) > 0 && r.Chance(60) {
+				target = open[r.Intn(len(open))]
+			}
+			amount := new(big.Int).Quo(new(big.Int).Mul(min, big.NewInt(int64(1+r.Intn(9)))), big.NewInt(20))
+			h.opSubmitGovDeposit(proposer, target, amount, min)
+		} else if r.Chance(50) {
+			h.opSubmitCrisis(proposer, "gov", "module-account", min)
+		} else {
+			h.opSubmitCrisis(proposer, "bank", "nonnegative-outstanding", min)
+		}
+		return
+	}
 	kind := h.pickKind()
 	expedited := r.Chance(18)
 	proposer := int64(10 + r.Intn(6))
@@ -2318,7 +2374,7 @@ func (h *hist) paramsCoq() string {
 	case p.ProposalCancelDest == authtypes.NewModuleAddress(distrtypes.ModuleName).String():
 		dest = "DPool"
 	default:
-		dest = fmt.Sprintf("(DAcct %d)", h.idOf[p.ProposalCancelDest])
+		dest = fmt.Sprintf("(DAcct %d)", h.aid(h.idOf[p.ProposalCancelDest]))
 	}
 	return fmt.Sprintf("(mk_params %s %s %d %d %d %s %s %s %s %s %s %s %s %s %s %s)",
 		zb(p.MinDeposit[0].Amount.BigInt()), zb(p.ExpeditedMinDeposit[0].Amount.BigInt()),
